@@ -119,7 +119,14 @@ def render(e, env, budget=3):
 def render_def(df, budget):
     pj = _proj(df.proj)
     if df.kind == "param":
-        return f"param#{df.extra}{pj}"
+        # by declared type, not by position or name: adding, reordering or renaming parameters does not change a condition
+        ty = A.norm_ty((df.node or {}).get("ty") or "") or "?"
+        ty = re.sub(r"^&\s*('\w+\s+)?(mut\s+)?", "", ty)
+        head = re.sub(r"<.*", "", ty).split("::")[-1] or "?"
+        if (df.node or {}).get("name") == "self":
+            head = "self"
+        ordn = _PARAM_ORD.get(id(df.node), "")
+        return f"param<{head}{ordn}>{pj}"
     node = df.node
     if df.kind in ("let", "bind"):
         pat = (node or {}).get("pat") or {}
@@ -226,7 +233,24 @@ def exemptions(repo, fn):
     return out
 
 
+_PARAM_ORD = {}
+
+
+def _index_params(fn):
+    """ordinal of each parameter among the parameters of the same type head (only shown when there are several)"""
+    heads = {}
+    for p in fn.params:
+        ty = A.norm_ty(p.get("ty") or "") or "?"
+        ty = re.sub(r"^&\s*('\w+\s+)?(mut\s+)?", "", ty)
+        h = re.sub(r"<.*", "", ty).split("::")[-1]
+        heads.setdefault(h, []).append(p)
+    for h, ps in heads.items():
+        for i, p in enumerate(ps):
+            _PARAM_ORD[id(p)] = f"#{i + 1}" if len(ps) > 1 else ""
+
+
 def _exemptions(repo, fn):
+    _index_params(fn)
     descend_names = {q.split("::")[-1] for q in validators(repo, extra=EXTRA_VALIDATORS)} - {"from_grammar", "parse", "from_str"}
     envs = A.collect_envs(fn)
     pm = A.parent_map(fn.body)
